@@ -206,4 +206,137 @@ theorem stuck_of {N Q : Nat} {s : Sys}
   | enqc a p c => obtain ⟨_, ha, _, _⟩ := step_enqc hstep; rcases hall a with h | ⟨_, _, h⟩ | ⟨_, _, h, _⟩ <;> simp [ha] at h
   | resu a p => obtain ⟨ha, _⟩ := step_resu hstep; rcases hall a with h | ⟨_, _, h⟩ | ⟨_, _, h, _⟩ <;> simp [ha] at h
 
+
+/-- general shape of a stuck state: every goroutine is idle, blocked in a send on the full queue
+    (`AddTask` or `enqueueContinuations`), waiting for a held promise mutex, or parked in AwaitSync on an
+    unsettled promise; no pool worker is idle -/
+theorem stuck_of' {N Q : Nat} {s : Sys}
+    (hall : ∀ a, s.act a = .idle ∨ (∃ ret c, s.act a = .add ret c) ∨
+                 (∃ ret p, s.act a = .wait ret p ∧ (s.prom p).settled = none) ∨
+                 (∃ p c rest, s.act a = .resEnq p (c :: rest)) ∨
+                 (∃ t p, s.act a = .awLock t p ∧ (s.prom p).locked ≠ none) ∨
+                 (∃ own p r, s.act a = .resLock own p r ∧ (s.prom p).locked ≠ none))
+    (hfull : Q ≤ s.queue.length) (hw : ∀ a, a < N → s.act a ≠ .idle) : ¬ Progress N Q s := by
+  rintro ⟨e, s', hstep, hprog⟩
+  have hidle : ∀ a, s.act a = .idle → e.actor = a → (∃ b t, e = .deq b t) → False := by
+    intro a hi he ⟨b, t, hd⟩
+    subst hd
+    obtain ⟨_, hn, _, _⟩ := step_deq hstep
+    simp only [Event.actor] at he; subst he
+    exact hw _ hn hi
+  -- the actor of the step and its state
+  have key : ∀ a, e.actor = a → (s.act a ≠ .idle ∨ ∃ b t, e = .deq b t) := by
+    intro a ha; subst ha; exact hprog
+  cases e with
+  | add a c =>
+    obtain ⟨ret, hst, _, _⟩ := step_add hstep
+    rcases starter_some hst with ⟨t, ht, _⟩ | ⟨hi, _, _⟩
+    · rcases hall a with h | ⟨_, _, h⟩ | ⟨_, _, h, _⟩ | ⟨_, _, _, h⟩ | ⟨_, _, h, _⟩ | ⟨_, _, _, h, _⟩ <;> simp [ht] at h
+    · rcases hprog with h | ⟨_, _, h⟩
+      · exact h hi
+      · cases h
+  | newx a c =>
+    obtain ⟨ret, hst, _, _⟩ := step_newx hstep
+    rcases starter_some hst with ⟨t, ht, _⟩ | ⟨hi, _, _⟩
+    · rcases hall a with h | ⟨_, _, h⟩ | ⟨_, _, h, _⟩ | ⟨_, _, _, h⟩ | ⟨_, _, h, _⟩ | ⟨_, _, _, h, _⟩ <;> simp [ht] at h
+    · rcases hprog with h | ⟨_, _, h⟩
+      · exact h hi
+      · cases h
+  | syw a c =>
+    obtain ⟨ret, hst, _, _⟩ := step_syw hstep
+    rcases starter_some hst with ⟨t, ht, _⟩ | ⟨hi, _, _⟩
+    · rcases hall a with h | ⟨_, _, h⟩ | ⟨_, _, h, _⟩ | ⟨_, _, _, h⟩ | ⟨_, _, h, _⟩ | ⟨_, _, _, h, _⟩ <;> simp [ht] at h
+    · rcases hprog with h | ⟨_, _, h⟩
+      · exact h hi
+      · cases h
+  | enq a c => obtain ⟨_, _, hq, _⟩ := step_enq hstep; omega
+  | enqc a p c => obtain ⟨_, _, hq, _⟩ := step_enqc hstep; omega
+  | deq a t => obtain ⟨hi, hn, _, _⟩ := step_deq hstep; exact hw a hn hi
+  | sywd a p =>
+    obtain ⟨ret, ha, hs, _⟩ := step_sywd hstep
+    rcases hall a with h | ⟨_, _, h⟩ | ⟨_, _, h, hu⟩ | ⟨_, _, _, h⟩ | ⟨_, _, h, _⟩ | ⟨_, _, _, h, _⟩ <;> simp [ha] at h
+    obtain ⟨_, rfl⟩ := h; exact hs hu
+  | awl a p =>
+    obtain ⟨t, ha, hl, _⟩ := step_awl hstep
+    rcases hall a with h | ⟨_, _, h⟩ | ⟨_, _, h, _⟩ | ⟨_, _, _, h⟩ | ⟨_, _, h, hk⟩ | ⟨_, _, _, h, _⟩ <;> simp [ha] at h
+    obtain ⟨_, rfl⟩ := h; exact hk hl
+  | resl a p =>
+    obtain ⟨own, r, ha, hl, _⟩ := step_resl hstep
+    rcases hall a with h | ⟨_, _, h⟩ | ⟨_, _, h, _⟩ | ⟨_, _, _, h⟩ | ⟨_, _, h, _⟩ | ⟨_, _, _, h, hk⟩ <;> simp [ha] at h
+    obtain ⟨_, rfl, _⟩ := h; exact hk hl
+  | aw a p => obtain ⟨t, ha, _, _⟩ := step_aw hstep; rcases hall a with h | ⟨_, _, h⟩ | ⟨_, _, h, _⟩ | ⟨_, _, _, h⟩ | ⟨_, _, h, _⟩ | ⟨_, _, _, h, _⟩ <;> simp [ha] at h
+  | aws a p => obtain ⟨t, ha, _, _⟩ := step_aws hstep; rcases hall a with h | ⟨_, _, h⟩ | ⟨_, _, h, _⟩ | ⟨_, _, _, h⟩ | ⟨_, _, h, _⟩ | ⟨_, _, _, h, _⟩ <;> simp [ha] at h
+  | awr a p => obtain ⟨t, ha, _, _⟩ := step_awr hstep; rcases hall a with h | ⟨_, _, h⟩ | ⟨_, _, h, _⟩ | ⟨_, _, _, h⟩ | ⟨_, _, h, _⟩ | ⟨_, _, _, h, _⟩ <;> simp [ha] at h
+  | reg a p => obtain ⟨t, ha, _⟩ := step_reg hstep; rcases hall a with h | ⟨_, _, h⟩ | ⟨_, _, h, _⟩ | ⟨_, _, _, h⟩ | ⟨_, _, h, _⟩ | ⟨_, _, _, h, _⟩ <;> simp [ha] at h
+  | unl a p => obtain ⟨ha, _⟩ := step_unl hstep; rcases hall a with h | ⟨_, _, h⟩ | ⟨_, _, h, _⟩ | ⟨_, _, _, h⟩ | ⟨_, _, h, _⟩ | ⟨_, _, _, h, _⟩ <;> simp [ha] at h
+  | res a p r =>
+    rcases step_res hstep with ⟨ha, _⟩ | ⟨hi, _, _, _, _⟩
+    · rcases hall a with h | ⟨_, _, h⟩ | ⟨_, _, h, _⟩ | ⟨_, _, _, h⟩ | ⟨_, _, h, _⟩ | ⟨_, _, _, h, _⟩ <;> simp [ha] at h
+    · rcases hprog with h | ⟨_, _, h⟩
+      · exact h hi
+      · cases h
+  | pub a p => obtain ⟨_, _, ha, _⟩ := step_pub hstep; rcases hall a with h | ⟨_, _, h⟩ | ⟨_, _, h, _⟩ | ⟨_, _, _, h⟩ | ⟨_, _, h, _⟩ | ⟨_, _, _, h, _⟩ <;> simp [ha] at h
+  | resu a p => obtain ⟨ha, _⟩ := step_resu hstep; rcases hall a with h | ⟨_, _, h⟩ | ⟨_, _, h, _⟩ | ⟨_, _, _, h⟩ | ⟨_, _, h, _⟩ | ⟨_, _, _, h, _⟩ <;> simp [ha] at h
+
+
+/-! ### the ghost fields are never read -/
+
+/-- two states with the same physical (non-ghost) fields -/
+def SamePhys (s t : Sys) : Prop := s.act = t.act ∧ s.queue = t.queue ∧ s.prom = t.prom ∧ s.resumeOn = t.resumeOn
+
+/-- result of a step up to ghost fields -/
+def StepAgree (a b : Option Sys) : Prop :=
+  match a, b with
+  | some s', some t' => SamePhys s' t'
+  | none, none => True
+  | _, _ => False
+
+set_option hygiene false in
+macro "ghost_fin" : tactic => `(tactic|
+  (simp only [StepAgree, SamePhys] <;> (repeat' split) <;> (try simp_all) <;>
+     (try (rename_i hA hB; first | (obtain ⟨_, rfl⟩ := hA; subst hB; simp) | (subst hA; subst hB; simp)))))
+
+set_option hygiene false in
+macro "ghost_start" a:ident : tactic => `(tactic|
+  (simp only [stepB, starter, setProm, h1, h2, h3, h4]
+   cases hq : t.act $a
+   case idle => by_cases hn : N ≤ $a <;> simp only [hn, if_true, if_false] <;> ghost_fin
+   all_goals ghost_fin))
+
+set_option hygiene false in
+macro "ghost_case" a:ident : tactic => `(tactic|
+  (simp only [stepB, starter, setProm, h1, h2, h3, h4]
+   cases hq : t.act $a <;> simp only [StepAgree, SamePhys] <;> (repeat' split) <;> (try simp_all) <;>
+     (try (rename_i hA hB; first | (obtain ⟨_, rfl⟩ := hA; subst hB; simp) | (subst hA; subst hB; simp)))))
+
+theorem ghost_irrelevant {N Q : Nat} {s t : Sys} (h : SamePhys s t) (e : Event) :
+    StepAgree (stepB N Q s e) (stepB N Q t e) := by
+  obtain ⟨h1, h2, h3, h4⟩ := h
+  cases e with
+  | add a c => ghost_start a
+  | enq a c => ghost_case a
+  | deq a c => ghost_case a
+  | aw a c => ghost_case a
+  | awl a c => ghost_case a
+  | aws a c => ghost_case a
+  | awr a c => ghost_case a
+  | reg a c => ghost_case a
+  | unl a c => ghost_case a
+  | res a c r => ghost_case a
+  | resl a c => ghost_case a
+  | pub a c => ghost_case a
+  | enqc a p c =>
+    simp only [stepB, setProm, h1, h2, h3, h4]
+    cases hq : t.act a
+    case resEnq p' rest => cases rest <;> ghost_fin
+    all_goals ghost_fin
+  | resu a c =>
+    simp only [stepB, setProm, h1, h2, h3, h4]
+    cases hq : t.act a
+    case resEnq p' rest => cases rest <;> ghost_fin
+    all_goals ghost_fin
+  | newx a c => ghost_start a
+  | syw a c => ghost_start a
+  | sywd a c => ghost_case a
+
 end Elk.Promise
